@@ -1794,7 +1794,9 @@ def no_mutation(branches):
     def ok(x):
         if x["k"] in ("var", "count") or (x["k"] == "acc" and x["a"] == "count"):
             return False
-        return all(ok(y) for y in x.get("inner", []))
+        if x["k"] == "wrap" and "el" in x and not ok(x["el"]):
+            return False
+        return all(ok(y) for y in x.get("inner", []) + x.get("chain", []))
     return all(ok(x) for b in branches for x in b)
 
 
@@ -2055,6 +2057,9 @@ def classify(case, res):
 
 def signature(case, failure):
     op = case["op"]
+    if op in ("chain", "split", "stage", "fillseq_init") and "Other:AttributeError" in str(failure) and \
+            any(x.get("k") == "wrap" and x.get("ad") == "FillInto" for x in _case_specs(case)):
+        return "chain:FillInto.__repr__ raises AttributeError"           # notes/C05_defect_2.md
     if op == "adapter":
         if case.get("given") in ("str", "int"):
             return "adapter:Run(None, run=<not callable>)"
